@@ -13,3 +13,4 @@ import PanderaModel.Props.C05
 #print axioms Pandera.C05.schema_side_writes_are_owned
 #print axioms Pandera.C05.schema_mutation_scan_nonempty
 #print axioms Pandera.C05.scanned_functions_leave_entry_objects
+#print axioms Pandera.C05.scanned_function_histories_leave_entry_objects
